@@ -69,6 +69,11 @@ func tstate(mode int) {
 			vassert(inv.ctxLive[i], "C10: Context() is not live during the invocation")
 		}
 		vassert(inv.ctxSame, "C10: Context() returned different contexts within one invocation")
+		vassert(!inv.customLeak, "C10: a Custom generator function was called again before the cleanups of its previous call had run")
+		vassert(!inv.customCtxBad, "C10: a Custom generator function call got the context of an earlier call, or that context was still live")
+		if inv.customCalls > 1 {
+			reach("custom-retried")
+		}
 		for i := 0; i < len(inv.ctxInCleanupCancelled); i++ {
 			vassert(inv.ctxInCleanupCancelled[i], "C10: context seen by a callback after the body ended is not cancelled")
 		}
@@ -78,3 +83,38 @@ func tstate(mode int) {
 func H_C02_checkOnce() { tstate(modeC02) }
 func H_C10_checkOnce() { tstate(modeC10) }
 func H_C11_checkOnce() { tstate(modeC11) }
+
+// H_C11_twoCases: a second, benign test case after an arbitrary first one - on the same T when
+// the first one passed or was invalid (findBug reuses it), on a fresh T otherwise (reproduction,
+// minimisation, later Checks in the process). The second case uses every per-test-case facility
+// (draws, a Custom generator, the context, a cleanup) and signals nothing: it must pass, whatever
+// the first case did - also through state that does not live on the T (pools, package variables).
+func H_C11_twoCases() {
+	p := newVProg("p", 2, 2, alphaMain, alphaSub)
+	tb := newVTB("T")
+	t := newT(tb, newBufBitStream(symWords("w", 4), false), false, nil)
+	err1 := checkOnce(t, p.prop)
+	if err1 != nil && !err1.isInvalidData() {
+		t = newT(tb, nil, false, nil)
+		reach("first-failed")
+	} else {
+		reach("first-reusable")
+	}
+	t.s = newBufBitStream([]uint64{1, 0, 1, 0, 1, 0, 1, 0}, false)
+	cleaned, live := 0, false
+	err2 := checkOnce(t, func(t *T) {
+		_ = Bool().Draw(t, "b")
+		_ = Custom(func(ct *T) int {
+			ct.Cleanup(func() { cleaned++ })
+			if Bool().Draw(ct, "cb") {
+				return 1
+			}
+			return 0
+		}).Draw(t, "c")
+		live = t.Context().Err() == nil
+		t.Cleanup(func() { cleaned++ })
+	})
+	vassert(err2 == nil, "C11: a test case in which nothing failed is reported as failing or invalid after an earlier test case")
+	vassert(live, "C10: Context() is not live during the invocation")
+	vassert(cleaned == 2, "C10: not every registered cleanup ran before checkOnce returned")
+}
